@@ -1,5 +1,6 @@
 // C12: SIMD evaluation vs default scalar evaluation of the SAME nmtools call (differential kernels).
-// One source, compiled once per SIMD context: -DC12_CTX=<n> -DKSUFFIX=_<ctx> (+ the -m flag the context needs).
+// One source, compiled once per SIMD context and part: -DC12_CTX=<n> -DC12_PART=<1 element-wise | 2 outer | 3 reductions> -DKSUFFIX=_<ctx>
+// (+ the -m flag the context needs); the parts are separate TUs only to keep each translated C file small.
 // Every k_<op>_<f|d>_simd<sfx> kernel has a twin k_<op>_<f|d>_ref<sfx> that makes the identical call without a context.
 // Real code: array::evaluator_t<view, simd_base_t<tag>>::eval_unary / eval_binary (eval/simd/evaluator/ufunc.hpp),
 // index::binary_2d_simd_enumerator (eval/simd/index/ufunc.hpp), simd_op_t of x86_sse.hpp / x86_avx.hpp / vector_extension.hpp / simde_avx512.
@@ -63,6 +64,7 @@ template <typename MR, typename T> static inline size_t emit_maybe(const MR& mr,
 template <typename T> using v1_t = hyb_t<T,CAP1,1>;
 template <typename T> using v2_t = hyb_t<T,CAP2,2>;
 
+#if C12_PART == 1
 // ---- unary element-wise: eval_unary (packed loop + scalar tail)
 #define UNARY_T(op, T, tn, PARAMS, ARGS) \
 KERNEL size_t K(k_##op##_##tn##_simd)(const T* in, size_t n PARAMS, T* out, size_t* oshape, size_t* odim){ v1_t<T> a; if(!a.resize(n)) return (size_t)-1; fill_n(&a.data_[0],in,n); \
@@ -96,3 +98,49 @@ KERNEL size_t K(k_##op##2_##tn##_ref)(const size_t* xs, const T* x, const size_t
   return emit_maybe(na::op(a,b,nm::None,meta::as_value_v<v2_t<T>>), out, oshape, odim); }
 #define BINARY2(op) BINARY2_T(op,float,f) BINARY2_T(op,double,d)
 BINARY2(add) BINARY2(subtract) BINARY2(multiply) BINARY2(divide)
+
+#endif
+// (binary 2-d (r,c) with 1-d (c,) under a SIMD context does not compile for fixed-dim operands: eval_binary calls utils::isequal on a
+//  2-entry and a 1-entry std::array shape, which is a static_assert failure; the pattern is therefore outside what can be evaluated)
+
+template <typename T> using v3_t = hyb_t<T,CAP2,3>;
+#if C12_PART == 2
+// ---- outer: eval_outer (lhs element broadcast with set1, rhs packed + padded tail); 1-d x 1-d -> (n,m) and 2-d x 1-d -> (r,c,m)
+#define OUTER_T(op, T, tn) \
+KERNEL size_t K(k_outer_##op##_##tn##_simd)(const T* x, size_t n, const T* y, size_t m, T* out, size_t* oshape, size_t* odim){ v1_t<T> a,b; if(!a.resize(n)||!b.resize(m)) return (size_t)-1; \
+  fill_n(&a.data_[0],x,n); fill_n(&b.data_[0],y,m); return emit_maybe(na::op.outer(a,b,nm::None,CTX,meta::as_value_v<v2_t<T>>), out, oshape, odim); } \
+KERNEL size_t K(k_outer_##op##_##tn##_ref)(const T* x, size_t n, const T* y, size_t m, T* out, size_t* oshape, size_t* odim){ v1_t<T> a,b; if(!a.resize(n)||!b.resize(m)) return (size_t)-1; \
+  fill_n(&a.data_[0],x,n); fill_n(&b.data_[0],y,m); return emit_maybe(na::op.outer(a,b,nm::None,nm::None,meta::as_value_v<v2_t<T>>), out, oshape, odim); } \
+KERNEL size_t K(k_outer2_##op##_##tn##_simd)(const size_t* xs, const T* x, const T* y, size_t m, T* out, size_t* oshape, size_t* odim){ v2_t<T> a; v1_t<T> b; if(!mk2(a,xs,x)||!b.resize(m)) return (size_t)-1; \
+  fill_n(&b.data_[0],y,m); return emit_maybe(na::op.outer(a,b,nm::None,CTX,meta::as_value_v<v3_t<T>>), out, oshape, odim); } \
+KERNEL size_t K(k_outer2_##op##_##tn##_ref)(const size_t* xs, const T* x, const T* y, size_t m, T* out, size_t* oshape, size_t* odim){ v2_t<T> a; v1_t<T> b; if(!mk2(a,xs,x)||!b.resize(m)) return (size_t)-1; \
+  fill_n(&b.data_[0],y,m); return emit_maybe(na::op.outer(a,b,nm::None,nm::None,meta::as_value_v<v3_t<T>>), out, oshape, odim); }
+#define OUTER(op) OUTER_T(op,float,f) OUTER_T(op,double,d)
+OUTER(add) OUTER(subtract) OUTER(multiply)   // array::divide has no outer form
+
+#endif
+#if C12_PART == 3
+// ---- reductions: eval_reduction (full / vertical / horizontal with identity padding); axis is a run-time index, keepdims a compile-time flag
+#define REDUCE2_T(op, T, tn, kd, KD, R) \
+KERNEL size_t K(k_reduce2_##op##_##kd##_##tn##_simd)(const size_t* xs, const T* x, int axis, T* out, size_t* oshape, size_t* odim){ v2_t<T> a; if(!mk2(a,xs,x)) return (size_t)-1; \
+  return emit_maybe(na::op.reduce(a,axis,nm::None,nm::None,KD,CTX,meta::as_value_v<R>), out, oshape, odim); } \
+KERNEL size_t K(k_reduce2_##op##_##kd##_##tn##_ref)(const size_t* xs, const T* x, int axis, T* out, size_t* oshape, size_t* odim){ v2_t<T> a; if(!mk2(a,xs,x)) return (size_t)-1; \
+  return emit_maybe(na::op.reduce(a,axis,nm::None,nm::None,KD,nm::None,meta::as_value_v<R>), out, oshape, odim); }
+#define REDUCE3_T(op, T, tn, kd, KD, R) \
+KERNEL size_t K(k_reduce3_##op##_##kd##_##tn##_simd)(const size_t* xs, const T* x, int axis, T* out, size_t* oshape, size_t* odim){ v3_t<T> a; if(!mk3(a,xs,x)) return (size_t)-1; \
+  return emit_maybe(na::op.reduce(a,axis,nm::None,nm::None,KD,CTX,meta::as_value_v<R>), out, oshape, odim); } \
+KERNEL size_t K(k_reduce3_##op##_##kd##_##tn##_ref)(const size_t* xs, const T* x, int axis, T* out, size_t* oshape, size_t* odim){ v3_t<T> a; if(!mk3(a,xs,x)) return (size_t)-1; \
+  return emit_maybe(na::op.reduce(a,axis,nm::None,nm::None,KD,nm::None,meta::as_value_v<R>), out, oshape, odim); }
+// axis = None: everything is reduced; keepdims=True gives shape (1,1), keepdims=False a scalar
+#define REDUCEALL_T(op, T, tn) \
+KERNEL size_t K(k_reduceall_##op##_kd_##tn##_simd)(const size_t* xs, const T* x, T* out, size_t* oshape, size_t* odim){ v2_t<T> a; if(!mk2(a,xs,x)) return (size_t)-1; \
+  return emit_maybe(na::op.reduce(a,nm::None,nm::None,nm::None,nm::True,CTX,meta::as_value_v<v2_t<T>>), out, oshape, odim); } \
+KERNEL size_t K(k_reduceall_##op##_kd_##tn##_ref)(const size_t* xs, const T* x, T* out, size_t* oshape, size_t* odim){ v2_t<T> a; if(!mk2(a,xs,x)) return (size_t)-1; \
+  return emit_maybe(na::op.reduce(a,nm::None,nm::None,nm::None,nm::True,nm::None,meta::as_value_v<v2_t<T>>), out, oshape, odim); } \
+KERNEL size_t K(k_reduceall_##op##_nk_##tn##_simd)(const size_t* xs, const T* x, T* out){ v2_t<T> a; if(!mk2(a,xs,x)) return (size_t)-1; \
+  *out = na::op.reduce(a,nm::None,nm::None,nm::None,nm::False,CTX); return 1; } \
+KERNEL size_t K(k_reduceall_##op##_nk_##tn##_ref)(const size_t* xs, const T* x, T* out){ v2_t<T> a; if(!mk2(a,xs,x)) return (size_t)-1; \
+  *out = na::op.reduce(a,nm::None,nm::None,nm::None,nm::False); return 1; }
+#define REDUCE(op, T, tn) REDUCE2_T(op,T,tn,kd,nm::True,v2_t<T>) REDUCE2_T(op,T,tn,nk,nm::False,v1_t<T>) REDUCE3_T(op,T,tn,kd,nm::True,v3_t<T>) REDUCE3_T(op,T,tn,nk,nm::False,v2_t<T>) REDUCEALL_T(op,T,tn)
+REDUCE(add,float,f) REDUCE(multiply,float,f) REDUCE(add,double,d)
+#endif
